@@ -60,6 +60,14 @@ CLAIMED.update({
     ref="3.19"),
 })
 
+CLAIMED.update({
+ "C08": dict(
+    technique="deterministic simulation: consumer and body scripts stepped on a virtual-time asyncio loop (seeded ready-queue order, clock jumps, cancellation at loop iterations, wait_for deadlines) and a seeded step order for sync generators; refinement against the undecorated function behind an ideal converting proxy",
+    level="slice (generator/coroutine/async-generator wrappers, eager and lazy): seeded exploration of 1-3 consumers x body scripts (yield/sleep/return/raise) x consumer protocols (next/send, anext/asend, throw/close/drop, pauses, per-op timeouts) x leaf faults on parameter/yielded/sent/returned payloads x task cancellation; per-consumer histories and what the body received must equal the reference up to the first fault, afterwards only: no non-conforming value delivered, body not resumed after a conversion failure, loop reaches quiescence",
+    note="the binding clause of C08 (a pure function of signature and call) is NOT decided; when the wrapped body is finalised is not compared; yielded generator objects excluded (DESIGN 3.8)",
+    ref="3.8"),
+})
+
 NA = {
  "C01": "pure function of (declaration, options, input): no schedule, history, fault or knob can change the verdict; sampling inputs would be property-based testing, not simulation",
  "C02": "biconditional over the value domain of each constraint; pure",
